@@ -41,11 +41,11 @@ def gen(seed, tier):
     r = rng_for(seed, "workload")
     both = r.random() < 0.35
     spec = G.gen_graph(r, n_derived=(2, 5), n_sources=(1, 2), n_rows=(0, 8), max_chunks=4,
-                       kinds=("rowmap", "filter", "merge2", "multi", "loop", "multi", "rowmap"),
-                       must_have=["multi"] if both else None)
+                       kinds=("rowmap", "filter", "merge2", "multi", "loop", "multi2", "rowmap"),
+                       must_have=[r.choice(["multi", "multi2"])] if both else None)
     if both:
         # a consumer of BOTH outputs of a multi-output plugin (the planner must treat each output on its own)
-        m = [n for n in spec["nodes"] if n["kind"] == "multi"][0]
+        m = [n for n in spec["nodes"] if n["kind"] in ("multi", "multi2")][0]
         deps = list(m["names"])
         if r.random() < 0.5:
             deps.reverse()
